@@ -4,6 +4,7 @@ use std::io::{BufRead, Write};
 use std::panic::{catch_unwind, AssertUnwindSafe};
 
 mod lm;
+mod st;
 
 fn main() {
     std::panic::set_hook(Box::new(|_| {}));
@@ -17,6 +18,8 @@ fn main() {
         let res = match mode.as_str() {
             "lm-direct" => lm::run_direct(&toks),
             "lm-profile" => lm::run_profile(&toks),
+            "st-samples" => st::run_samples(&toks),
+            "st-counter" => st::run_counter(&toks),
             _ => panic!("unknown mode"),
         };
         writeln!(out, "{}", res).unwrap();
